@@ -82,7 +82,7 @@ Lemma C20_model_ok_lemma c sz al : fits (k_ty c) (k_v c) -> fits (k_ty c) (k_x c
   sz = N.of_nat (e_size (k_ty c)) -> ok_C20 c (run_C20 c sz al) = true.
 Proof.
   destruct c as [t v x]; cbn [k_ty k_v k_x]. intros Hv Hx ->.
-  unfold ok_C20, run_C20; cbn [k_ty k_v k_x b_bytes b_native b_eq1 b_eq2 b_size b_align b_nsize b_nalign].
+  unfold ok_C20, run_C20; cbn [k_ty k_v k_x b_bytes b_native b_eq1 b_eq2 b_size b_align b_nsize b_nalign b_routes].
   rewrite bytes_wire by exact Hv. rewrite roundtrip_lemma by exact Hv.
   destruct (eq_iff_lemma t v x Hv Hx) as [E1 E2]. rewrite roundtrip_lemma in E2 by exact Hv.
   assert (L : list_eqb (wire_bytes t v) (wire_bytes t v) = true) by (apply list_eqb_eq; reflexivity).
